@@ -10,6 +10,8 @@ from ..gen.world import Binding, Crash, World
 from ..mon import exec_mon, sched
 from ..ref import refexec
 
+THOROUGH_SCALE = 3.0   # 16 shards; see DESIGN.md section 7
+
 RULE = (
     "for generated schemas, worlds (values, nulls, nulls in non-null positions, ResolverError and, in a "
     "third of the cases, unexpected exceptions at arbitrary fields) and valid operations, the same "
@@ -176,8 +178,8 @@ def run_config(ctx, rng, case, config, text, op, variables, ref, base_witness, m
 def run(ctx):
     rng = ctx.rng("cases")
     quick = ctx.tier == "quick"
-    max_exh = 40 if quick else 400
-    n_samples = 6 if quick else 40
+    max_exh = 40 if quick else 240
+    n_samples = 6 if quick else 24
     for ci in range(ctx.n(7)):
         p_crash = 0.25 if ci % 3 == 2 else 0.0
         case = DualCase(rng, "c08:%d:%d:%d" % (ctx.seed, ctx.shard, ci), p_crash)
